@@ -1073,12 +1073,15 @@ class Tokenizer:
         if token.string == "()":
             return []
 
-        keywords = self.parse(
+        _keywords = self.parse(
             token.string[1:-1],
             line=token.line,
             col=token.col + 1,
             expect_semicolon=False,
-        )[0]
+        )
+        if not _keywords:
+            return []
+        keywords = _keywords[0]
         is_expect_comma = False  # Whether to expect comma token
         params: list[str] = []
 
@@ -1125,12 +1128,15 @@ class Tokenizer:
         if token.string == paren[1]:
             return []
 
-        keywords = self.parse(
+        _keywords = self.parse(
             token.string[1:-1],
             line=token.line,
             col=token.col + 1,
             expect_semicolon=False,
-        )[0]
+        )
+        if not _keywords:
+            return []
+        keywords = _keywords[0]
         is_expect_comma = False  # Whether to expect comma token
         tokens: list[Token] = []
 
